@@ -94,7 +94,9 @@ func (r roots) lookup(t *iTree, method, hostPort, path string, c *cTx, lazy bool
 	}
 
 	host := netutil.StripHostPort(hostPort)
-	if host != "" {
+	// A hostname never contains a slash: such a host cannot be equal to a registered hostname and must not be
+	// walked into the path part of a route (or into the path-only tree).
+	if host != "" && strings.IndexByte(host, slashDelim) < 0 {
 		// Try first by domain
 		n, tsr = lookupByDomain(t, r[index], host, path, c, lazy)
 		if n != nil {
